@@ -256,6 +256,201 @@ Section AnswerParity.
   Qed.
 End AnswerParity.
 
+(** ---- concurrent streams: exactly one answer per stream (no handler contract needed) ---- *)
+Section Once.
+  Variable hstate : Type.
+  Variable compute : hstate -> request -> bool -> fat * hstate * list bytes.
+  Variable ims_on : bool.
+  Variable parse_ims : bytes -> option Z.
+  Variable sanitize_ok : request -> bool.
+  Variable prime : request -> request.
+  Variable negotiate : request -> fat -> option (N * bytes).
+  Variable vary_tuple : request -> tuple.
+  Variable vary_header : request -> fat -> list (bytes * bytes).
+  Notation startX := (start true ims_on parse_ims sanitize_ok prime negotiate vary_tuple vary_header).
+  Notation completeX := (complete hstate compute true ims_on negotiate vary_tuple vary_header).
+  Notation stepX := (stream_step hstate compute true ims_on parse_ims sanitize_ok prime negotiate vary_tuple vary_header).
+  Notation runX := (run_streams hstate compute true ims_on parse_ims sanitize_ok prime negotiate vary_tuple vary_header).
+
+  (** ---- at most one answer per stream ---- *)
+  Lemma s_get_set_same sid ph ss q : s_get sid ss = Some q -> s_get sid (s_set sid ph ss) = Some ph.
+  Proof.
+    induction ss as [|[i q0] ss IH]; cbn [s_get s_set]; [discriminate|].
+    destruct (i =? sid) eqn:E; cbn [s_get]; rewrite E; [reflexivity | exact IH].
+  Qed.
+  Lemma s_get_set_other sid sid' ph ss : sid' <> sid -> s_get sid' (s_set sid ph ss) = s_get sid' ss.
+  Proof.
+    intros Hne. induction ss as [|[i q0] ss IH]; cbn [s_get s_set]; [reflexivity|].
+    destruct (i =? sid) eqn:E; cbn [s_get].
+    - destruct (i =? sid') eqn:E'; [lia | reflexivity].
+    - destruct (i =? sid'); [reflexivity | exact IH].
+  Qed.
+
+  Lemma step_done_stays cn now sid cn' out s :
+    stepX cn now sid = (cn', out) -> s_get s (snd cn) = Some PhDone ->
+    s_get s (snd cn') = Some PhDone /\ (forall r0 rp, out <> Some (s, r0, rp)).
+  Proof.
+    destruct cn as [[c hs] ss]. unfold stream_step. cbn [snd]. intros H D.
+    destruct (N.eq_dec s sid) as [->|Hne].
+    - rewrite D in H. inversion H; subst. split; [exact D | intros; discriminate].
+    - destruct (s_get sid ss) as [[r0 | r0 p |]|] eqn:G.
+      + destruct (startX c now r0) as [c1 [rp|p]]; inversion H; subst; cbn [snd];
+          rewrite s_get_set_other by exact Hne; (split; [exact D|]); intros r1 rp1 E; inversion E; congruence.
+      + destruct (completeX c hs now p) as [[[c1 hs1] rp] lg]. inversion H; subst; cbn [snd].
+        rewrite s_get_set_other by exact Hne. split; [exact D|]. intros r1 rp1 E; inversion E; congruence.
+      + inversion H; subst. split; [exact D | intros; discriminate].
+      + inversion H; subst. split; [exact D | intros; discriminate].
+  Qed.
+
+  Lemma step_answer_done cn now sid cn' s r0 rp :
+    stepX cn now sid = (cn', Some (s, r0, rp)) -> s_get s (snd cn') = Some PhDone.
+  Proof.
+    destruct cn as [[c hs] ss]. unfold stream_step. intros H.
+    destruct (s_get sid ss) as [[r1 | r1 p |]|] eqn:G.
+    - destruct (startX c now r1) as [c1 [rp1|p]]; inversion H; subst; cbn [snd].
+      eapply s_get_set_same; exact G.
+    - destruct (completeX c hs now p) as [[[c1 hs1] rp1] lg]. inversion H; subst; cbn [snd].
+      eapply s_get_set_same; exact G.
+    - inversion H.
+    - inversion H.
+  Qed.
+
+  Lemma done_never_answered sched : forall cn now dt s,
+    s_get s (snd cn) = Some PhDone -> forall r0 rp, ~ In (s, r0, rp) (runX cn now dt sched).
+  Proof.
+    induction sched as [|sid rest IH]; intros cn now dt s D r0 rp Hin; cbn [run_streams] in Hin; [contradiction|].
+    destruct (stepX cn now sid) as [cn' out] eqn:S.
+    destruct (step_done_stays _ _ _ _ _ s S D) as [D' Hout].
+    destruct out as [o|].
+    - destruct Hin as [E|Hin]; [subst o; exact (Hout _ _ eq_refl) | exact (IH _ _ _ _ D' _ _ Hin)].
+    - exact (IH _ _ _ _ D' _ _ Hin).
+  Qed.
+
+  Lemma answers_nodup sched : forall cn now dt,
+    NoDup (map (fun o => fst (fst o)) (runX cn now dt sched)).
+  Proof.
+    induction sched as [|sid rest IH]; intros cn now dt; cbn [run_streams]; [constructor|].
+    destruct (stepX cn now sid) as [cn' out] eqn:S.
+    destruct out as [[[s r0] rp]|]; [|apply IH].
+    cbn [map fst]. constructor; [|apply IH].
+    intros Hin. apply in_map_iff in Hin as [[[s1 r1] rp1] [E Hin]]. cbn [fst] in E. subst s1.
+    exact (done_never_answered rest cn' (now + dt) dt s (step_answer_done _ _ _ _ _ _ _ S) _ _ Hin).
+  Qed.
+
+  (** ---- every stream whose task gets its two turns is answered ---- *)
+  Definition turns_needed (ph : phase) : nat :=
+    match ph with PhNew _ => 2 | PhWait _ _ => 1 | PhDone => 0 end.
+
+  Lemma step_other_phase cn now sid cn' out s :
+    stepX cn now sid = (cn', out) -> s <> sid -> s_get s (snd cn') = s_get s (snd cn).
+  Proof.
+    destruct cn as [[c hs] ss]. unfold stream_step. cbn [snd]. intros H Hne.
+    destruct (s_get sid ss) as [[r0 | r0 p |]|] eqn:G.
+    - destruct (startX c now r0) as [c1 [rp|p]]; inversion H; subst; cbn [snd]; apply s_get_set_other; exact Hne.
+    - destruct (completeX c hs now p) as [[[c1 hs1] rp] lg]. inversion H; subst; cbn [snd].
+      apply s_get_set_other; exact Hne.
+    - inversion H; subst. reflexivity.
+    - inversion H; subst. reflexivity.
+  Qed.
+
+  Lemma all_answered sched : forall cn now dt s ph,
+    s_get s (snd cn) = Some ph -> (turns_needed ph > 0)%nat ->
+    (count_occ N.eq_dec sched s >= turns_needed ph)%nat ->
+    exists r0 rp, In (s, r0, rp) (runX cn now dt sched).
+  Proof.
+    induction sched as [|sid rest IH]; intros cn now dt s ph G Hpos Hcount.
+    - cbn [count_occ] in Hcount. lia.
+    - cbn [run_streams]. destruct (stepX cn now sid) as [cn' out] eqn:S.
+      destruct (N.eq_dec sid s) as [->|Hne].
+      + rewrite count_occ_cons_eq in Hcount by reflexivity.
+        destruct cn as [[c hs] ss]. unfold stream_step in S. cbn [snd] in G. rewrite G in S.
+        destruct ph as [r0 | r0 p |]; [| |cbn in Hpos; lia].
+        * destruct (startX c now r0) as [c1 [rp|p]]; inversion S; subst.
+          -- exists r0, rp. left. reflexivity.
+          -- destruct (IH (c1, hs, s_set s (PhWait r0 p) ss) (now + dt) dt s (PhWait r0 p)) as (r1 & rp1 & Hin).
+             ++ cbn [snd]. eapply s_get_set_same; exact G.
+             ++ cbn. lia.
+             ++ cbn [turns_needed] in *. lia.
+             ++ exists r1, rp1. exact Hin.
+        * destruct (completeX c hs now p) as [[[c1 hs1] rp] lg]. inversion S; subst.
+          exists r0, rp. left. reflexivity.
+      + rewrite count_occ_cons_neq in Hcount by exact Hne.
+        assert (G' : s_get s (snd cn') = Some ph).
+        { rewrite (step_other_phase _ _ _ _ _ s S) by congruence. exact G. }
+        destruct (IH cn' (now + dt) dt s ph G' Hpos Hcount) as (r1 & rp1 & Hin).
+        exists r1, rp1. destruct out; [right|]; exact Hin.
+  Qed.
+
+  Lemma open_streams_get (reqs : list (N * request)) s r0 : NoDup (map fst reqs) -> In (s, r0) reqs -> s_get s (open_streams reqs) = Some (PhNew r0).
+  Proof.
+    unfold open_streams. induction reqs as [|[i r] l IH]; intros ND Hin; [contradiction|].
+    cbn [map s_get]. inversion ND as [|? ? Hni ND']; subst. destruct Hin as [E|Hin].
+    - inversion E; subst. rewrite N.eqb_refl. reflexivity.
+    - destruct (i =? s) eqn:E; [|exact (IH ND' Hin)].
+      exfalso. apply Hni. replace i with s by lia. apply in_map_iff. exists (s, r0). split; [reflexivity | exact Hin].
+  Qed.
+
+  Lemma streams_exactly_once (reqs : list (N * request)) c hs now dt sched :
+    NoDup (map fst reqs) ->
+    (forall s, In s (map fst reqs) -> (count_occ N.eq_dec sched s >= 2)%nat) ->
+    NoDup (map (fun o => fst (fst o)) (runX ((c, hs), open_streams reqs) now dt sched)) /\
+    forall s r0, In (s, r0) reqs -> exists rp, In (s, r0, rp) (runX ((c, hs), open_streams reqs) now dt sched).
+  Proof.
+    intros ND Hfair. split; [apply answers_nodup|].
+    intros s r0 Hin.
+    destruct (all_answered sched ((c, hs), open_streams reqs) now dt s (PhNew r0)) as (r1 & rp & Hout).
+    - cbn [snd]. apply open_streams_get; assumption.
+    - cbn. lia.
+    - cbn [turns_needed]. apply Hfair. apply in_map_iff. exists (s, r0). split; [reflexivity | exact Hin].
+    - exists rp. replace r0 with r1; [exact Hout|].
+      (* the request carried by an answer is the one the stream was opened with *)
+      clear Hfair. revert Hout. generalize (c, hs). generalize now.
+      assert (Hget : s_get s (open_streams reqs) = Some (PhNew r0)) by (apply open_streams_get; assumption).
+      revert Hget. generalize (open_streams reqs).
+      induction sched as [|sid rest IH]; intros ss Hget now0 st Hout; cbn [run_streams] in Hout; [contradiction|].
+      destruct (stepX (st, ss) now0 sid) as [cn' out] eqn:S.
+      destruct (N.eq_dec sid s) as [->|Hne].
+      + destruct st as [c0 hs0]. unfold stream_step in S. rewrite Hget in S.
+        destruct (startX c0 now0 r0) as [c1 [rp1|p]]; inversion S; subst.
+        * destruct Hout as [E|Hout]; [inversion E; reflexivity|].
+          exfalso. eapply (done_never_answered rest); [|exact Hout]. cbn [snd]. eapply s_get_set_same; exact Hget.
+        * clear IH S.
+          assert (Hw : s_get s (s_set s (PhWait r0 p) ss) = Some (PhWait r0 p)) by (eapply s_get_set_same; exact Hget).
+          revert Hw Hout. generalize (s_set s (PhWait r0 p) ss). generalize (now0 + dt). generalize (c1, hs0).
+          induction rest as [|sid2 rest2 IH2]; intros st2 now2 ss2 Hw Hout; cbn [run_streams] in Hout; [contradiction|].
+          destruct (stepX (st2, ss2) now2 sid2) as [cn2 out2] eqn:S2.
+          destruct (N.eq_dec sid2 s) as [->|Hne2].
+          -- destruct st2 as [c2 hs2]. unfold stream_step in S2. rewrite Hw in S2.
+             destruct (completeX c2 hs2 now2 p) as [[[c3 hs3] rp3] lg3]. inversion S2; subst.
+             destruct Hout as [E|Hout]; [inversion E; reflexivity|].
+             exfalso. eapply (done_never_answered rest2); [|exact Hout]. cbn [snd]. eapply s_get_set_same; exact Hw.
+          -- assert (G2 : s_get s (snd cn2) = Some (PhWait r0 p)).
+             { rewrite (step_other_phase _ _ _ _ _ s S2) by congruence. exact Hw. }
+             destruct cn2 as [st3 ss3]. cbn [snd] in G2.
+             assert (Hout' : In (s, r1, rp) (runX (st3, ss3) (now2 + dt) dt rest2)).
+             { destruct out2 as [o|]; [|exact Hout]. destruct Hout as [E|Hout]; [|exact Hout].
+               subst o. destruct st2 as [c2 hs2]. unfold stream_step in S2.
+               destruct (s_get sid2 ss2) as [[ra | ra pa |]|] eqn:Ga.
+               - destruct (startX c2 now2 ra) as [ca [rpa|pa]]; inversion S2; congruence.
+               - destruct (completeX c2 hs2 now2 pa) as [[[ca hsa] rpa] lga]. inversion S2; congruence.
+               - inversion S2.
+               - inversion S2. }
+             exact (IH2 st3 (now2 + dt) ss3 G2 Hout').
+      + assert (G' : s_get s (snd cn') = Some (PhNew r0)).
+        { rewrite (step_other_phase _ _ _ _ _ s S) by congruence. exact Hget. }
+        destruct cn' as [st' ss']. cbn [snd] in G'.
+        assert (Hout' : In (s, r1, rp) (runX (st', ss') (now0 + dt) dt rest)).
+        { destruct out as [o|]; [|exact Hout]. destruct Hout as [E|Hout]; [|exact Hout].
+          subst o. destruct st as [c0 hs0]. unfold stream_step in S.
+          destruct (s_get sid ss) as [[ra | ra pa |]|] eqn:Ga.
+          - destruct (startX c0 now0 ra) as [ca [rpa|pa]]; inversion S; congruence.
+          - destruct (completeX c0 hs0 now0 pa) as [[[ca hsa] rpa] lga]. inversion S; congruence.
+          - inversion S.
+          - inversion S. }
+        exact (IH ss' G' (now0 + dt) st' Hout').
+  Qed.
+End Once.
+
 (** ---- concurrent streams ---- *)
 Section Streams.
   Variable hstate : Type.
@@ -512,68 +707,32 @@ Section Streams.
     rewrite Forall_forall in Hims. exact (Hims _ H1).
   Qed.
 
-  (** ---- at most one answer per stream ---- *)
-  Lemma s_get_set_same sid ph ss q : s_get sid ss = Some q -> s_get sid (s_set sid ph ss) = Some ph.
+  (** ---- on the wire ---- *)
+  Variable checked : bool.
+  Variable error_page : N -> resp.
+  Variable pkg : N -> headers -> headers.
+  Variable alt : option bytes.
+  Variable sanitize : request -> outcome (option (N * N)).
+  Variable encode : request -> N -> headers -> bytes -> headers * bytes.
+  Variable hversion : N.
+
+  Lemma l4_resp_equiv r a c : reply_equiv a c -> l4_resp encode hversion r a = l4_resp encode hversion r c.
+  Proof. intros (H1 & H2 & H3 & _). unfold l4_resp. rewrite H1, H2, H3. reflexivity. Qed.
+
+  Notation answerC := (answer hstate compute true ims_on parse_ims sanitize_ok prime negotiate vary_tuple
+                              vary_header checked error_page pkg alt sanitize encode hversion).
+  Notation wireX := (stream_wire checked error_page pkg alt sanitize encode hversion).
+
+  Lemma streams_wire c hs now dt sched hs' now' :
+    InvX c -> Forall (fun e => no_imsX (snd e)) reqs ->
+    forall s r0 rp, In (s, r0, rp) (runX ((c, hs), open_streams reqs) now dt sched) ->
+      In (s, r0) reqs /\ wireX (s, r0, rp) = (s, answerC H2 true ([], hs') now' r0).
   Proof.
-    induction ss as [|[i q0] ss IH]; cbn [s_get s_set]; [discriminate|].
-    destruct (i =? sid) eqn:E; cbn [s_get]; rewrite E; [reflexivity | exact IH].
-  Qed.
-  Lemma s_get_set_other sid sid' ph ss : sid' <> sid -> s_get sid' (s_set sid ph ss) = s_get sid' ss.
-  Proof.
-    intros Hne. induction ss as [|[i q0] ss IH]; cbn [s_get s_set]; [reflexivity|].
-    destruct (i =? sid) eqn:E; cbn [s_get].
-    - destruct (i =? sid') eqn:E'; [lia | reflexivity].
-    - destruct (i =? sid'); [reflexivity | exact IH].
+    intros I Hims s r0 rp Hin.
+    destruct (streams_layer4 c hs now dt sched hs' now' I Hims s r0 rp Hin) as [H1 H2].
+    split; [exact H1|]. unfold stream_wire, answer.
+    destruct (serveC ([], hs') now' r0) as [[st' rp'] lg']. cbn [fst snd] in H2.
+    rewrite (l4_resp_equiv r0 _ _ H2). reflexivity.
   Qed.
 
-  Lemma step_done_stays cn now sid cn' out s :
-    stepX cn now sid = (cn', out) -> s_get s (snd cn) = Some PhDone ->
-    s_get s (snd cn') = Some PhDone /\ (forall r0 rp, out <> Some (s, r0, rp)).
-  Proof.
-    destruct cn as [[c hs] ss]. unfold stream_step. cbn [snd]. intros H D.
-    destruct (N.eq_dec s sid) as [->|Hne].
-    - rewrite D in H. inversion H; subst. split; [exact D | intros; discriminate].
-    - destruct (s_get sid ss) as [[r0 | r0 p |]|] eqn:G.
-      + destruct (startX c now r0) as [c1 [rp|p]]; inversion H; subst; cbn [snd];
-          rewrite s_get_set_other by exact Hne; (split; [exact D|]); intros r1 rp1 E; inversion E; congruence.
-      + destruct (completeX c hs now p) as [[[c1 hs1] rp] lg]. inversion H; subst; cbn [snd].
-        rewrite s_get_set_other by exact Hne. split; [exact D|]. intros r1 rp1 E; inversion E; congruence.
-      + inversion H; subst. split; [exact D | intros; discriminate].
-      + inversion H; subst. split; [exact D | intros; discriminate].
-  Qed.
-
-  Lemma step_answer_done cn now sid cn' s r0 rp :
-    stepX cn now sid = (cn', Some (s, r0, rp)) -> s_get s (snd cn') = Some PhDone.
-  Proof.
-    destruct cn as [[c hs] ss]. unfold stream_step. intros H.
-    destruct (s_get sid ss) as [[r1 | r1 p |]|] eqn:G.
-    - destruct (startX c now r1) as [c1 [rp1|p]]; inversion H; subst; cbn [snd].
-      eapply s_get_set_same; exact G.
-    - destruct (completeX c hs now p) as [[[c1 hs1] rp1] lg]. inversion H; subst; cbn [snd].
-      eapply s_get_set_same; exact G.
-    - inversion H.
-    - inversion H.
-  Qed.
-
-  Lemma done_never_answered sched : forall cn now dt s,
-    s_get s (snd cn) = Some PhDone -> forall r0 rp, ~ In (s, r0, rp) (runX cn now dt sched).
-  Proof.
-    induction sched as [|sid rest IH]; intros cn now dt s D r0 rp Hin; cbn [run_streams] in Hin; [contradiction|].
-    destruct (stepX cn now sid) as [cn' out] eqn:S.
-    destruct (step_done_stays _ _ _ _ _ s S D) as [D' Hout].
-    destruct out as [o|].
-    - destruct Hin as [E|Hin]; [subst o; exact (Hout _ _ eq_refl) | exact (IH _ _ _ _ D' _ _ Hin)].
-    - exact (IH _ _ _ _ D' _ _ Hin).
-  Qed.
-
-  Lemma answers_nodup sched : forall cn now dt,
-    NoDup (map (fun o => fst (fst o)) (runX cn now dt sched)).
-  Proof.
-    induction sched as [|sid rest IH]; intros cn now dt; cbn [run_streams]; [constructor|].
-    destruct (stepX cn now sid) as [cn' out] eqn:S.
-    destruct out as [[[s r0] rp]|]; [|apply IH].
-    cbn [map fst]. constructor; [|apply IH].
-    intros Hin. apply in_map_iff in Hin as [[[s1 r1] rp1] [E Hin]]. cbn [fst] in E. subst s1.
-    exact (done_never_answered rest cn' (now + dt) dt s (step_answer_done _ _ _ _ _ _ _ S) _ _ Hin).
-  Qed.
 End Streams.
